@@ -24,6 +24,9 @@ import (
 	upb "verif/harness/aepb/user"
 )
 
+// NoEmail as Identity.OAuthEmail stands for a valid OAuth token whose user has no e-mail address.
+const NoEmail = "(token-without-email)"
+
 // Identity is what the platform knows about the caller of one incoming request.
 type Identity struct {
 	OAuthEmail string // "" = no valid OAuth token
@@ -379,6 +382,10 @@ func (s *Server) dispatch(service, method string, in []byte, ticket string) (out
 		}
 		if id.OAuthEmail == "" {
 			return nil, &rpb.ApplicationError{Code: proto.Int32(int32(upb.UserServiceError_OAUTH_INVALID_TOKEN)), Detail: proto.String("no valid OAuth token")}, ""
+		}
+		if id.OAuthEmail == NoEmail {
+			// a valid token whose user has no e-mail address (the scope did not cover it): the SDK hands out a user with Email ""
+			return marshal(&upb.GetOAuthUserResponse{Email: proto.String(""), UserId: proto.String("uid-no-email"), AuthDomain: proto.String("gmail.com"), IsAdmin: proto.Bool(false)}), nil, ""
 		}
 		return marshal(&upb.GetOAuthUserResponse{Email: proto.String(id.OAuthEmail), UserId: proto.String("uid-" + id.OAuthEmail), AuthDomain: proto.String("gmail.com"), IsAdmin: proto.Bool(id.OAuthAdmin)}), nil, ""
 	}
